@@ -82,3 +82,42 @@ func runGEN(c *fw.Check) {
 	c.Case("x", "y")
 	c.Sample("generator self-check")
 }
+
+// genPairs returns two-variant modules: every ordered pair of the simplest variants of two
+// different productions, and every ordered pair of <=1-deviation variants of the SAME production
+// (including a variant next to a second instance of itself). State that a translation or printing
+// step keeps from one entity to the next (a buffer, an index, a cache) needs two entities of the
+// right kinds in one module; batches of consecutive variants only provide neighbours.
+func genPairs(entries []gen.Entry, crossBothOrders bool) [][]gen.Variant {
+	var out [][]gen.Variant
+	per := make([][]gen.Variant, len(entries))
+	for i, e := range entries {
+		for _, v := range gen.Variants(e, i, 1) {
+			if !v.Solo {
+				per[i] = append(per[i], v)
+			}
+		}
+	}
+	for i := range entries {
+		if len(per[i]) == 0 {
+			continue
+		}
+		for j := range entries {
+			if j == i || len(per[j]) == 0 || (!crossBothOrders && j < i) {
+				continue
+			}
+			out = append(out, []gen.Variant{per[i][0], per[j][0]})
+		}
+		n := len(per[i])
+		for a := 0; a < n; a++ {
+			for b := 0; b < n; b++ {
+				if a != b {
+					out = append(out, []gen.Variant{per[i][a], per[i][b]})
+				}
+			}
+			twin := gen.Build(entries[i], fmt.Sprintf("e%dw%d_", i, a), 10000000*(i+1)+16*(n+a), per[i][a].Choices)
+			out = append(out, []gen.Variant{per[i][a], twin})
+		}
+	}
+	return out
+}
